@@ -418,6 +418,33 @@ func c01Gen(rng *rand.Rand, tier string) []Case {
 			fmt.Sprintf("restart %d 0", who), "sleep 700", "settle " + exp3}
 		out = append(out, Case{ID: fmt.Sprintf("fl%d", i), Ops: ops, Nontrivial: true, Tags: []string{"failed-left-rejoin"}})
 	}
+	// directed: a member leaves gracefully while one observer is cut off from it (the leaver stays connected to
+	// the others); after the heal the observer, which only saw it fail, must learn through state sync that it left
+	for i, obs := range []int{3, 0} {
+		leaver := 1
+		all := func(st string) string {
+			var parts []string
+			for a := 0; a < 4; a++ {
+				if a == leaver {
+					continue
+				}
+				var items []string
+				for m := 0; m < 4; m++ {
+					if m == leaver {
+						items = append(items, fmt.Sprintf("?n%d:%s", m, st))
+					} else {
+						items = append(items, fmt.Sprintf("n%d:alive", m))
+					}
+				}
+				parts = append(parts, fmt.Sprintf("n%d=%s", a, strings.Join(items, ",")))
+			}
+			return strings.Join(parts, ";")
+		}
+		exp4 := "n0=n0:alive,n1:alive,n2:alive,n3:alive;n1=n0:alive,n1:alive,n2:alive,n3:alive;n2=n0:alive,n1:alive,n2:alive,n3:alive;n3=n0:alive,n1:alive,n2:alive,n3:alive"
+		ops := []string{"nodes 4", "join 1 0", "join 2 0", "join 3 0", "settle " + exp4,
+			fmt.Sprintf("partition %d", obs), "sleep 500", fmt.Sprintf("leave %d", leaver), "sleep 400", "heal", "settle " + all("left")}
+		out = append(out, Case{ID: fmt.Sprintf("pl%d", i), Ops: ops, Nontrivial: true, Tags: []string{"leave-while-observer-cut-off"}})
+	}
 	for i := 0; i < n; i++ {
 		k := 3 + rng.Intn(3)
 		t := &c01Truth{k: k, state: make([]string, k), everLeft: make([]bool, k)}
